@@ -571,6 +571,22 @@ class Flow:
             c = ks[1]
         ws = self.wrap_sites(c, s, fr)
         if ws:
+            split = self.split_offset_wrap(c, ws, s, fr)
+            if split is not None:
+                # `x - c OP K` / `x + c OP K` on an unsigned x: decided separately for the values of x that do not wrap and
+                # for those that do (where the C++ value is the mathematical one shifted by 2^width)
+                want = (si == 0)
+                out = []
+                for s_i, b_i in split:
+                    t = decide_bool(b_i, lambda a, s_i=s_i: self.bounds(s_i, a))
+                    if t is not None:
+                        if t == want and s_i not in out:
+                            out.append(s_i)
+                        continue
+                    for s_j in self.add_facts(b_i, want, s_i, fr, c):
+                        if s_j not in out:
+                            out.append(s_j)
+                return out
             b2 = self.explain_wrap_tests(self.condnf(c, s, fr), ws, s, fr, c)
             if b2 is not None:
                 # the only use of the wrapping product is the classic after-the-fact test (a*b)/a op b: read it exactly
@@ -651,6 +667,59 @@ class Flow:
             return b
         out = nnf(rewrite(nf))
         return out if ok[0] else None
+
+    def split_offset_wrap(self, cond, ws, s, fr):
+        """The deliberate wrap idiom  `x - c >= K`  (one unsigned comparison for "x == 0 or x > K").  If the only arithmetic of
+        the condition that can wrap is  W = x +/- c  (x one value with known bounds, c a constant) and W is directly one operand
+        of the comparison that *is* the condition, with a constant on the other side, return [(state, normal form), ...]:
+        the state restricted to the x that do not wrap together with the plain reading, and the state restricted to the x that
+        wrap together with the reading shifted by 2^width.  None if the condition has any other shape."""
+        tu = fr.tu
+        if len({n['id'] for n, _ in ws}) != 1:
+            return None
+        W = ws[0][0]
+        if W.get('kind') != 'BinaryOperator' or W.get('opcode') not in ('+', '-'):
+            return None
+        tr = type_range(tu.sd(W).get('ct'))
+        if tr is None or tr[0] != 0:
+            return None
+        cs = tu.strip(cond)
+        if cs is None or cs.get('kind') != 'BinaryOperator' or cs.get('opcode') not in ('==', '!=', '<', '<=', '>', '>='):
+            return None
+        ks = tu.kids(cs)
+        sides = [tu.strip(k, casts=True) for k in ks]
+        if sides[0] is not None and sides[0].get('id') == W['id']:
+            wi = 0
+        elif sides[1] is not None and sides[1].get('id') == W['id']:
+            wi = 1
+        else:
+            return None
+        # the other side must not contain wrapping arithmetic itself and must be a constant here
+        K = self.val(ks[1 - wi], s, fr)
+        if K.as_int() is None:
+            return None
+        R = _Norm(self, s, fr).poly(W)
+        ats = R.atoms(deep=False)
+        if len(ats) != 1:
+            return None
+        lin = R.linear_in(ats[0])
+        if lin is None or lin[0] != 1 or lin[1].as_int() in (None, 0) or not self.factable(ats[0]):
+            return None
+        a, d = ats[0], lin[1].as_int()
+        lo, hi = self.bounds(s, a)
+        width = tr[1] + 1
+        op = cs.get('opcode')
+        mk = (lambda L: Rel.make(L, op, K)) if wi == 0 else (lambda L: Rel.make(K, op, L))
+        out = []
+        if d < 0:
+            parts = [((max(lo, -d), hi), R), ((lo, min(hi, -d - 1)), R + width)]
+        else:
+            parts = [((lo, min(hi, tr[1] - d)), R), ((max(lo, tr[1] - d + 1), hi), R - width)]
+        for (plo, phi), L in parts:
+            if plo > phi:
+                continue
+            out.append((s.set(('fact', a), (plo, phi)), nnf(('rel', mk(L)))))
+        return out
 
     def wrap_uses_are_quotients(self, cond, ws, s, fr):
         """AST check for explain_wrap_tests: inside the condition `cond` (following the initialisers of the locals it reads)
